@@ -860,6 +860,9 @@ def oracle_request(case, obs):
             bad.append(('status %d, handler set %d' % (st, base), 'req:status'))
         elif method != 'HEAD' and base not in (204, 205) and body != content:
             bad.append(('body differs from the handler body', 'req:full_body'))
+        elif base not in (204, 205) and hd.get('content-length') not in (None, str(n)):
+            bad.append(('Content-Length %s for a body of %d bytes' % (hd.get('content-length'), n),
+                        'req:200_content_length'))
         return bad
     want_bodies = []
     for a in rng_allowed:
@@ -877,6 +880,9 @@ def oracle_request(case, obs):
     if st == 200:
         if method != 'HEAD' and body != content:
             bad.append(('200 body is not the whole entity (%d of %d bytes)' % (len(body), n), 'req:full_body'))
+        elif hd.get('content-length') not in (None, str(n)):
+            bad.append(('200 Content-Length %s for an entity of %d bytes' % (hd.get('content-length'), n),
+                        'req:200_content_length'))
         if 'content-range' in hd:
             bad.append(('200 with Content-Range %r' % hd['content-range'], 'req:200_content_range'))
     elif st == 416:
@@ -1075,30 +1081,46 @@ def merge(ctx, d):
 
 
 def run(ctx):
+    import time
+    t0 = time.time()
+    phases = {'lean_prepare': round(ctx.lean.wall, 1) if ctx.lean else None}
+
+    def mark(name):
+        nonlocal t0
+        phases[name] = round(time.time() - t0, 1)
+        t0 = time.time()
+    ctx.extra['phase_wall_s'] = phases
     try:
         if ctx.model(['R 1 N']) is None and ctx.lean is not None and ctx.lean.driver_ok:
             raise common.HarnessError('driver drv_c16 not available')
         run_case_list(ctx, witness_cases(ctx))
         run_case_list(ctx, corpus_cases())
+        mark('witnesses+corpus')
         rng = ctx.rng
         # R: unit stream
-        n_unit = ctx.budget(9000, 20000)
+        n_unit = ctx.budget(15000, 30000)
         cases = []
         for _ in range(n_unit):
             n = gen_len(rng)
             cases.append((gen_range_header(rng, n), n))
         check_unit(ctx, cases)
+        mark('unit_generated')
         # systematic small scope, every run: every small-grammar header x lengths 0..6 (quick) / 0..40
         hs = enum_small_headers()
         if ctx.quick():
-            check_unit(ctx, [(h, n) for n in (0, 1, 2, 3, 5) for h in hs[::3]])
+            check_unit(ctx, [(h, n) for n in range(0, 13) for h in hs])
+            ctx.extra['small_scope_unit'] = 'lengths 0..12 x %d small-grammar headers' % len(hs)
+        mark('unit_small_scope')
         # E: element lists
         check_elements(ctx, [gen_elements_value(rng) for _ in range(ctx.budget(600, 5000))])
+        mark('elements')
         # Q: requests; first the systematic validator table (every tier), then generated ones
         table = enum_decision_table()
         check_requests(ctx, table if not ctx.quick() else table[ctx.seed % 2::2])
         ctx.extra['validator_table_requests'] = len(table) if not ctx.quick() else len(table[ctx.seed % 2::2])
-        check_requests(ctx, [gen_request(rng) for _ in range(ctx.budget(2600, 6000))])
+        mark('requests_validator_table')
+        check_requests(ctx, [gen_request(rng) for _ in range(ctx.budget(5000, 8000))])
+        mark('requests_generated')
         if not ctx.quick():
             jobs = []
             base = ctx.rng.getrandbits(48)
@@ -1110,6 +1132,7 @@ def run(ctx):
                 jobs.append((0, 'exh', lo, min(lo + 3, 41)))
             for d in common.parallel_map(_worker, jobs):
                 merge(ctx, d)
+            mark('thorough_parallel')
             ctx.extra['exhaustive_small_scope'] = 'lengths 0..40 x %d small-grammar headers' % len(hs)
             ctx.extra['thorough_unit_strings'] = 32 * 31250
             ctx.extra['thorough_requests'] = 32 * 3200
